@@ -674,6 +674,79 @@ class ShadowRef:
 
 _shadows = {}
 
+def run_c19_frames(scn, stats, sigs):
+    """One instruction template at every frame T-state in [t_lo, t_hi) (see frames.py)."""
+    from . import frames
+    def bump(k, n=1):
+        stats[k] = stats.get(k, 0) + n
+    tpl = frames.TEMPLATES[scn['template']]
+    machine = scn['machine']
+    is128 = machine != '48K'
+    frame = 70908 if is128 else 69888
+    regs0 = frames.state_regs(tpl)
+    mem = {'machine': machine, 'ram': {'fill': 0}, 'patches': [[regs0[PC], bytes(tpl[1]).hex()]], 'o7ffd': scn['o7ffd']}
+    if is128:
+        del mem['ram']
+        mem['banks'] = [{'fill': 0}] * 8
+    base = {'kind': 'wstep', 'machine': machine, 'mem': mem, 'regs': regs0, 'tracer': {'present': True, 'in_r_c': True, 'ini': True}, 'reads': [0xFF], 'steps': 1}
+    st = materialise_state(base)
+    if machine not in _shadows:
+        _shadows[machine] = ShadowRef(machine)
+    sh = _shadows[machine]
+    o7 = scn['o7ffd'] if is128 else 0
+    for p, q in (('py', 'pycmio'), ('c', 'ccmio')):
+        P, Q = get_replica(p, machine), get_replica(q, machine)
+        P.reset(st)
+        Q.reset(st)
+        rP, rQ = P.sim.registers, Q.sim.registers
+        for t in range(scn['t_lo'], scn['t_hi']):
+            t_abs = t + frame        # second frame: T never negative for the reference
+            for i in range(30):
+                rP[i] = regs0[i]
+                rQ[i] = regs0[i]
+            rP[T] = rQ[T] = t_abs
+            P.world.n = Q.world.n = 0
+            del P.world.log[:]
+            del Q.world.log[:]
+            pre = list(rP)
+            info = sh.decode(P, pre, st['tracer'])
+            P.step()
+            Q.step()
+            gP, gQ = list(rP), list(rQ)
+            bump('events')
+            bump('frame_sweep_steps')
+            for i in range(29):
+                if i in (13, T):
+                    continue
+                va, vb = gP[i], gQ[i]
+                if i == F:
+                    va &= 0xD7
+                    vb &= 0xD7
+                if va != vb:
+                    raise Violation('C19', 'C19/%s-vs-%s/reg.%s' % (p, q, REGNAMES[i]), '%s vs %s differ in %s (%d vs %d) after %s (%s o7ffd=%d) at frame-T=%d' % (
+                        p, q, REGNAMES[i], gP[i], gQ[i], tpl[0], machine, o7, t))
+            if P.world.log != Q.world.log:
+                raise Violation('C19', 'C19/%s-vs-%s/ports' % (p, q), 'port logs differ after %s at frame-T=%d: %s vs %s' % (tpl[0], t, P.world.log, Q.world.log))
+            extra = (gQ[T] - t_abs) - (gP[T] - t_abs)
+            want = sh.ula.total_delay(t, info.cycles, o7)
+            if want:
+                bump('probe:contended_delay_nonzero')
+            else:
+                bump('probe:no_delay_expected')
+            if gP[T] - t_abs != info.t:
+                raise Violation('C19', 'C19/%s/plain-tstates' % p, '%s took %d T for %s, reference %d' % (p, gP[T] - t_abs, tpl[0], info.t))
+            if extra < 0:
+                raise Violation('C19', 'C19/%s/faster-than-plain' % q, '%s took %d T, %s %d T for %s (%s o7ffd=%d) at frame-T=%d' % (q, gQ[T] - t_abs, p, gP[T] - t_abs, tpl[0], machine, o7, t))
+            if extra != want and info.alt_cycles is not None:
+                alt = sh.ula.total_delay(t, info.alt_cycles, o7)
+                if extra == alt:
+                    want = alt
+            if extra != want:
+                raise Violation('C19', 'C19/%s/delay' % q, '%s: extra delay %d, ULA model %d for %s (%s o7ffd=%d) at frame-T=%d\n cycles=%s' % (
+                    q, extra, want, tpl[0], machine, o7, t, info.cycles))
+            sigs.add((info.slot, t % 8))
+    return (scn['t_hi'] - scn['t_lo']) * 2
+
 def run_c19(scn, stats, sigs):
     def bump(k, n=1):
         stats[k] = stats.get(k, 0) + n
